@@ -9,6 +9,7 @@ require (
 
 require (
 	github.com/google/uuid v1.3.0 // indirect
+	github.com/gorilla/websocket v1.4.2 // indirect
 	github.com/philhofer/fwd v1.1.2 // indirect
 )
 
